@@ -382,7 +382,7 @@ def main(argv=None):
         hashes |= r["nt_hashes"]
         nt_enum += r["nt_enum"]
         exhaustive += r["exhaustive"]
-        unit_walls[r["unit"]] = round(r["wall_s"], 2)
+        unit_walls["%s#%d" % (r["unit"], r["idx"])] = round(r["wall_s"], 2)
         for sig, f in r["failures"].items():
             if sig in failures:
                 failures[sig]["count"] += f["count"]
